@@ -29,13 +29,17 @@ FLAGS = [(cs, cd, rd) for cs in (False, True) for cd in (False, True) for rd in 
 _uid = [0]
 
 
-def make_lattice():
+def make_lattice(variant=0):
     _uid[0] += 1
     mod = 'verif_lattice_%d' % _uid[0]
+    # variant: the root classes A and F claim to live in 'builtins' / '__main__' (unique qualified names keep the deferred keys apart)
+    special = {1: 'builtins', 2: '__main__'}.get(variant % 3)
 
     def mk(name, bases):
         # E and G get nested qualified names (qualname != name), as classes defined inside classes have
         qual = {'E': 'Outer.E', 'G': 'Outer.Inner.G'}.get(name, name)
+        if special and name in ('A', 'F'):
+            return type(name, bases, {'__module__': special, '__qualname__': '%s_%d' % (qual, _uid[0])})
         return type(name, bases, {'__module__': mod, '__qualname__': qual})
     A = mk('A', (object,))
     B = mk('B', (A,))
@@ -146,7 +150,7 @@ def live_projection(lat):
 
 def run_history(ops, obs):
     """ops: list of tuples. Returns None or (key, message). obs: Counter-like dict for monitor statistics."""
-    lat = make_lattice()
+    lat = make_lattice(len(ops) + sum(len(o[1]) + ord(o[1][0]) for o in ops))
     m = Model(lat)
     tagn = [0]
 
